@@ -226,6 +226,14 @@ func composeStage(b *strings.Builder, c cmpCfg, s int) {
 	case "CFALSE":
 		b.WriteString("      condition: \"false\"\n")
 	}
+	// some stages have a condition that holds and some a (templated) directory of their own: neither
+	// changes what the model says, and the condition is evaluated where taskctl runs
+	if c.Cls[s-1] != "CFALSE" && (s+len(c.Deps[s-1]))%2 == 0 {
+		b.WriteString("      condition: \"true\"\n")
+	}
+	if !c.Inc[s-1] && (s+c.N)%3 == 0 {
+		b.WriteString("      dir: \"{{.Root}}\"\n")
+	}
 }
 
 func composeCfgFile(n int) []byte {
